@@ -1,7 +1,331 @@
-//! C05 — not built yet.
-use lv_common::Ctx;
+//! C05 — Row retrieval returns exactly the committed row (celestia-types half:
+//! `Row::new / encode / decode / from_raw / verify`; the shrex codec half lives in lv-node).
+use bytes::BytesMut;
+use celestia_proto::shwap::{Row as RawRow, Share as RawShare, row::HalfSide};
+use celestia_types::consts::appconsts::AppVersion;
+use celestia_types::row::{Row, RowId};
+use celestia_types::{DataAvailabilityHeader, Share};
+use lv_common::prelude::*;
+use lv_gen::square::{SquareSpec, build_square, square_strategy};
+use lv_gen::sqx::RawSquare;
+use prost::Message;
 
-pub fn run(_ctx: &mut Ctx) {
-    eprintln!("C05: check not built yet");
-    std::process::exit(2);
+#[derive(Clone, Debug, Serialize, Deserialize)]
+pub enum RowMut {
+    /// one bit of one share
+    FlipBit { share: u16, pos: u16, bit: u8 },
+    /// two shares exchanged
+    Swap { a: u16, b: u16 },
+    /// the honest row j presented for row i
+    OtherRow { j: u16 },
+    /// the honest column j presented for row i
+    Column { j: u16 },
+    Drop { i: u16 },
+    /// a share of the same row appended
+    Append { from: u16 },
+    Reverse,
+    /// share a copied over share b
+    Overwrite { a: u16, b: u16 },
+    RotateLeft,
+    /// all shares removed
+    Empty,
+    /// keep only the first n shares
+    Truncate { n: u16 },
+}
+
+#[derive(Clone, Debug, Serialize, Deserialize)]
+pub struct Case {
+    pub square: SquareSpec,
+    pub rows: Vec<u16>,
+    pub muts: Vec<RowMut>,
+}
+
+fn mut_strategy() -> impl Strategy<Value = RowMut> {
+    prop_oneof![
+        4 => (any::<u16>(), any::<u16>(), 0u8..8).prop_map(|(share, pos, bit)| RowMut::FlipBit { share, pos, bit }),
+        4 => (any::<u16>(), any::<u16>()).prop_map(|(a, b)| RowMut::Swap { a, b }),
+        3 => any::<u16>().prop_map(|j| RowMut::OtherRow { j }),
+        1 => any::<u16>().prop_map(|j| RowMut::Column { j }),
+        2 => any::<u16>().prop_map(|i| RowMut::Drop { i }),
+        2 => any::<u16>().prop_map(|from| RowMut::Append { from }),
+        1 => Just(RowMut::Reverse),
+        2 => (any::<u16>(), any::<u16>()).prop_map(|(a, b)| RowMut::Overwrite { a, b }),
+        1 => Just(RowMut::RotateLeft),
+        1 => Just(RowMut::Empty),
+        1 => any::<u16>().prop_map(|n| RowMut::Truncate { n }),
+    ]
+}
+
+fn label_of(m: &RowMut) -> &'static str {
+    match m {
+        RowMut::FlipBit { .. } => "mut-flip-bit",
+        RowMut::Swap { .. } => "mut-swap-shares",
+        RowMut::OtherRow { .. } => "mut-other-row",
+        RowMut::Column { .. } => "mut-column-as-row",
+        RowMut::Drop { .. } => "mut-drop-share",
+        RowMut::Append { .. } => "mut-append-share",
+        RowMut::Reverse => "mut-reverse",
+        RowMut::Overwrite { .. } => "mut-overwrite-share",
+        RowMut::RotateLeft => "mut-rotate",
+        RowMut::Empty => "mut-empty",
+        RowMut::Truncate { .. } => "mut-truncate",
+    }
+}
+
+/// apply a mutation to a list of shares (a whole row or one half of it)
+fn apply(m: &RowMut, v: &[Vec<u8>], raw: &RawSquare, half: Option<bool>) -> Vec<Vec<u8>> {
+    let mut out = v.to_vec();
+    let n = out.len();
+    // the part of another axis corresponding to the part being mutated
+    let part = |axis: Vec<Vec<u8>>| -> Vec<Vec<u8>> {
+        let k = axis.len() / 2;
+        match half {
+            None => axis,
+            Some(false) => axis[..k].to_vec(),
+            Some(true) => axis[k..].to_vec(),
+        }
+    };
+    match m {
+        RowMut::FlipBit { share, pos, bit } => {
+            if n > 0 {
+                let s = pick(*share, n);
+                let p = pick(*pos, out[s].len());
+                out[s][p] ^= 1 << bit;
+            }
+        }
+        RowMut::Swap { a, b } => {
+            if n > 1 {
+                out.swap(pick(*a, n), pick(*b, n));
+            }
+        }
+        RowMut::OtherRow { j } => out = part(raw.axis(true, pick(*j, raw.w))),
+        RowMut::Column { j } => out = part(raw.axis(false, pick(*j, raw.w))),
+        RowMut::Drop { i } => {
+            if n > 0 {
+                out.remove(pick(*i, n));
+            }
+        }
+        RowMut::Append { from } => {
+            if n > 0 {
+                let s = out[pick(*from, n)].clone();
+                out.push(s);
+            }
+        }
+        RowMut::Reverse => out.reverse(),
+        RowMut::Overwrite { a, b } => {
+            if n > 1 {
+                let s = out[pick(*a, n)].clone();
+                out[pick(*b, n)] = s;
+            }
+        }
+        RowMut::RotateLeft => {
+            if n > 1 {
+                out.rotate_left(1);
+            }
+        }
+        RowMut::Empty => out.clear(),
+        RowMut::Truncate { n: keep } => out.truncate(pick(*keep, n)),
+    }
+    out
+}
+
+fn bytes_of(row: &Row) -> Vec<Vec<u8>> {
+    row.shares.iter().map(|s| s.to_vec()).collect()
+}
+
+fn digest_rows(tag: u64, row: usize, v: &[Vec<u8>]) -> u64 {
+    let mut d = tag.wrapping_mul(0x9E3779B97F4A7C15) ^ (row as u64) << 40;
+    for s in v {
+        d = d.rotate_left(7) ^ digest_bytes(s);
+    }
+    d
+}
+
+fn raw_row(half: &[Vec<u8>], right: bool) -> RawRow {
+    RawRow {
+        shares_half: half.iter().map(|d| RawShare { data: d.clone() }).collect(),
+        half_side: if right { HalfSide::Right as i32 } else { HalfSide::Left as i32 },
+    }
+}
+
+/// decode + verify; `Some(row bytes)` iff both succeeded. A panic is "not accepted" for this
+/// property (C16 owns never-panics); it is labelled and noted.
+fn decode_verify(obs: &mut Obs, id: RowId, wire: &[u8], dah: &DataAvailabilityHeader, what: &str) -> Option<Vec<Vec<u8>>> {
+    let r = lv_common::no_panic(|| {
+        let row = Row::decode(id, wire).ok()?;
+        row.verify(id, dah).ok()?;
+        Some(bytes_of(&row))
+    });
+    match r {
+        Ok(v) => v,
+        Err(rec) => {
+            obs.label("panicked-instead-of-rejecting");
+            obs.label(&format!("panic-site:{}", lv_gen::sqx::panic_site(&rec)));
+            obs.note(format!("panic in Row::decode/verify on {what} (owned by C16): {rec}"));
+            None
+        }
+    }
+}
+
+pub fn run(ctx: &mut Ctx) {
+    ctx.assume("the committed square is the one ExtendedDataSquare::from_ods produced for a generated ODS; ground truth for row i = the raw bytes of eds.data_square() at row i; DAH = DataAvailabilityHeader::from_eds (its roots are cross-checked against an independent NMT in C08)");
+    ctx.assume("shrex ResponseCodec half of C05 is checked in lv-node, not here");
+    ctx.essential(&["left-roundtrip", "right-reconstruct", "parity-row", "mutant-differs-direct", "mutant-differs-left", "mutant-differs-right", "mut-flip-bit", "mut-swap-shares", "mut-other-row"]);
+
+    let max_log2 = ctx.tier.pick(5, 6); // ODS width up to 32 (EDS 64) quick, 64 (EDS 128) thorough
+    let cases = ctx.tier.pick(2400, 20000);
+    let strat = move || {
+        (
+            square_strategy(0, max_log2),
+            prop::collection::vec(any::<u16>(), 6),
+            prop::collection::vec(mut_strategy(), 8..16),
+        )
+            .prop_map(|(square, rows, muts)| Case { square, rows, muts })
+    };
+    let rule = "per generated EDS and every row i: Row::new -> encode (left half) -> Row::decode must equal row i; a hand-built right-half RawRow must reconstruct to row i; both must verify under id i. Mutated rows (bit flip, swap, other row, column, drop, append, reverse, overwrite, rotate, empty, truncate) are presented (a) directly as Row{shares}, (b) as a mutated left half, (c) as a mutated right half: verify Ok => the row's bytes equal row i of the square. Non-trivial = right-half reconstruction, or a mutant whose bytes differ from row i (distinct by route+row+bytes)";
+    let body = |case: &Case, obs: &mut Obs| -> Result<(), Failure> {
+        let sq = build_square(&case.square, AppVersion::V3);
+        let raw = RawSquare::from_eds(&sq.eds);
+        let (w, k) = (raw.w, raw.k());
+        let mut_rows: Vec<usize> = if w <= 16 {
+            (0..w).collect()
+        } else {
+            let mut v = vec![0, k - 1, k, w - 1];
+            v.extend(case.rows.iter().map(|s| pick(*s, w)));
+            v
+        };
+        for i in 0..w {
+            let id = RowId::new(i as u16, 9).unwrap();
+            let expected = raw.axis(true, i);
+            if i >= k {
+                obs.label("parity-row");
+            }
+            // ---- honest: left half through the wire
+            let row = Row::new(i as u16, &sq.eds).map_err(|e| Failure::new("gen", format!("Row::new: {e}")))?;
+            let mut buf = BytesMut::new();
+            row.encode(&mut buf);
+            obs.eval(None);
+            obs.label("left-roundtrip");
+            let dec = lv_common::no_panic(|| Row::decode(id, &buf));
+            match dec {
+                Ok(Ok(d)) => {
+                    obs.check(bytes_of(&d) == expected, "C05:left-roundtrip-differs", || format!("row {i} of width {w}: decode(encode(row)) differs from the row"))?;
+                    obs.check(d.shares == sq.eds.row(i as u16).unwrap(), "C05:left-roundtrip-share-kind", || format!("row {i} of width {w}: decoded shares differ from eds.row (parity flag)"))?;
+                    obs.check(d.verify(id, &sq.dah).is_ok(), "C05:honest-row-rejected", || format!("row {i} of width {w}: decoded honest row fails verify"))?;
+                }
+                Ok(Err(e)) => obs.fail("C05:left-roundtrip-error", format!("row {i} of width {w}: decode(encode(row)) failed: {e}"))?,
+                Err(rec) => obs.fail("C05:left-roundtrip-panic", format!("row {i} of width {w}: decode(encode(row)) panicked: {rec}"))?,
+            }
+            // ---- honest: right half, hand built
+            let wire = raw_row(&expected[k..], true).encode_to_vec();
+            obs.eval(Some(digest_rows(1, i, &expected[k..])));
+            obs.label("right-reconstruct");
+            let dec = lv_common::no_panic(|| Row::decode(id, &wire));
+            match dec {
+                Ok(Ok(d)) => {
+                    obs.check(bytes_of(&d) == expected, "C05:right-reconstruct-differs", || format!("row {i} of width {w}: reconstruction from the right half differs from the row"))?;
+                    obs.check(d.shares == sq.eds.row(i as u16).unwrap(), "C05:right-reconstruct-share-kind", || format!("row {i} of width {w}: reconstructed shares differ from eds.row (parity flag)"))?;
+                    obs.check(d.verify(id, &sq.dah).is_ok(), "C05:honest-row-rejected", || format!("row {i} of width {w}: reconstructed honest row fails verify"))?;
+                }
+                Ok(Err(e)) => obs.fail("C05:right-reconstruct-error", format!("row {i} of width {w}: reconstruction from the right half failed: {e}"))?,
+                Err(rec) => obs.fail("C05:right-reconstruct-panic", format!("row {i} of width {w}: reconstruction from the right half panicked: {rec}"))?,
+            }
+            // honest row under every other id must verify only if equal by value
+            if w <= 16 {
+                for j in 0..w {
+                    if j == i {
+                        continue;
+                    }
+                    let other = raw.axis(true, j);
+                    let differs = other != expected;
+                    obs.eval(differs.then(|| digest_rows(2, i, &other) ^ j as u64));
+                    obs.label("honest-row-under-other-id");
+                    let jid = RowId::new(j as u16, 9).unwrap();
+                    let acc = lv_common::no_panic(|| row.verify(jid, &sq.dah).is_ok()).unwrap_or(false);
+                    if acc && differs {
+                        obs.fail("C05:accepted-row-not-committed", format!("honest row {i} verified under id {j} (width {w}) although the rows differ"))?;
+                    }
+                }
+            }
+            if !mut_rows.contains(&i) {
+                continue;
+            }
+            // ---- mutants
+            for m in &case.muts {
+                let ml = label_of(m);
+                // (a) direct Row{shares}
+                let mutated = apply(m, &expected, &raw, None);
+                let shares: Option<Vec<Share>> = mutated
+                    .iter()
+                    .enumerate()
+                    .map(|(c, b)| if i < k && c < k { Share::from_raw(b).ok() } else { Share::parity(b).ok() })
+                    .collect();
+                if let Some(shares) = shares {
+                    let differs = mutated != expected;
+                    obs.eval(differs.then(|| digest_rows(3, i, &mutated)));
+                    obs.label(ml);
+                    if differs {
+                        obs.label("mutant-differs-direct");
+                    }
+                    let r = Row { shares };
+                    let acc = match lv_common::no_panic(|| r.verify(id, &sq.dah).is_ok()) {
+                        Ok(a) => a,
+                        Err(rec) => {
+                            obs.label("panicked-instead-of-rejecting");
+                            obs.label(&format!("panic-site:{}", lv_gen::sqx::panic_site(&rec)));
+                            obs.note(format!("panic in Row::verify on a direct mutant (owned by C16): {rec}"));
+                            false
+                        }
+                    };
+                    if acc && differs {
+                        obs.fail("C05:accepted-row-not-committed", format!("Row::verify accepted a row for index {i} (width {w}) whose shares differ from row {i}; mutation {m:?}"))?;
+                    }
+                    if !acc && !differs {
+                        obs.fail("C05:honest-row-rejected", format!("Row::verify rejected row {i} (width {w}) presented unchanged; mutation {m:?} was a no-op"))?;
+                    }
+                } else {
+                    obs.label("mutant-unbuildable-share");
+                }
+                // (b)/(c) mutated half through the wire
+                for right in [false, true] {
+                    let half: &[Vec<u8>] = if right { &expected[k..] } else { &expected[..k] };
+                    let mh = apply(m, half, &raw, Some(right));
+                    let changed = mh != half;
+                    let wire = raw_row(&mh, right).encode_to_vec();
+                    let got = decode_verify(obs, id, &wire, &sq.dah, ml);
+                    obs.eval(changed.then(|| digest_rows(if right { 5 } else { 4 }, i, &mh)));
+                    if changed {
+                        obs.label(if right { "mutant-differs-right" } else { "mutant-differs-left" });
+                    }
+                    match got {
+                        Some(b) => {
+                            obs.label("half-mutant-accepted");
+                            if b != expected {
+                                obs.fail(
+                                    "C05:accepted-row-not-committed",
+                                    format!("a mutated {} half decoded and verified for index {i} (width {w}) but the resulting row differs from row {i}; mutation {m:?}", if right { "right" } else { "left" }),
+                                )?;
+                            }
+                        }
+                        None => {
+                            if !changed {
+                                obs.fail("C05:honest-row-rejected", format!("unchanged {} half of row {i} (width {w}) was rejected; mutation {m:?} was a no-op", if right { "right" } else { "left" }))?;
+                            }
+                        }
+                    }
+                }
+            }
+        }
+        Ok(())
+    };
+    ctx.proptest("rows", rule, cases, strat, body);
+
+    // the widest squares leopard's GF(2^8) code supports (EDS 256), thorough tier only
+    if ctx.tier == Tier::Thorough {
+        let strat = || {
+            (square_strategy(7, 7), prop::collection::vec(any::<u16>(), 6), prop::collection::vec(mut_strategy(), 8..12))
+                .prop_map(|(square, rows, muts)| Case { square, rows, muts })
+        };
+        ctx.proptest("rows-eds256", rule, 6, strat, body);
+    }
 }
